@@ -64,5 +64,10 @@ ROWS = {
   "stateful property-based testing (rapid): generated call histories with pool poisoning through verification hooks; pristine-state differential and retention invariant",
   "Histories of 4-30 steps (decodes over every entry point and a pool of well-formed / truncated / hostile / mis-sized / zone-respelled inputs, perceptual hashes of right- and wrong-size images, poisoning of the Exif buffer pool and pixel pools with hostile contents, GCs) run in one process; every call must give the digest it gives on pristine state, and every returned value is re-digested after each later step and must not change.",
   "Trusted: hooks exif2.VerifResetPools/VerifPoisonPool/VerifNewBuffers and imagehash.VerifResetPixelPools/VerifPoisonPixelPools (build tag verif); internal/digest. bufio reader pools (imagemeta, jpeg, isobmff) are exercised through ordinary history only."),
+
+ "C05": ("exploration",
+  "property-based testing (rapid) of generated concurrent plans under the Go race detector; sequential-run differential; deadlock watchdog",
+  "Generated plans (2-64 goroutines x 5-30 mixed calls over samples, encoder output with many zone offsets, XMP packets and images; GOMAXPROCS 1-32; cold caches and pools before the concurrent phase) run in a -race binary: a reported data race is a violation (the driver attaches the plan in flight and the report), every call's digest must equal its digest when run alone, and the plan must finish.",
+  "Trusted: the Go race detector and scheduler. The harness does not own the interleaving: data races are detected independently of the schedule, atomicity violations without a data race only if the scheduler produces them (stated limit of the technique, DESIGN section 4 C05)."),
 }
 NOT_APPLICABLE = {}
